@@ -582,7 +582,21 @@ func chainPart(thorough bool) *result {
 	if thorough {
 		window = 100000
 	}
-	for _, fx := range fixtures {
+	type run struct {
+		fx     fixture
+		net    bitcoin.Network
+		window int
+	}
+	runs := []run{{fixtures[0], bitcoin.MainNet, window}, {fixtures[1], bitcoin.MainNet, window}}
+	// the same rules on a repository configured for another network (no chain split table): the
+	// difficulty rules do not depend on the split configuration
+	otherWindow := 25
+	if thorough {
+		otherWindow = 1000
+	}
+	runs = append(runs, run{fixtures[1], bitcoin.TestNet, otherWindow})
+	for _, rn := range runs {
+		fx, window := rn.fx, rn.window
 		data, err := os.ReadFile(repoRoot() + "/" + fx.file)
 		if err != nil {
 			res.vs = append(res.vs, mc.Violation{Prop: "C02", Clause: "fixture", Fingerprint: "fixture", Detail: err.Error()})
@@ -593,11 +607,14 @@ func chainPart(thorough bool) *result {
 			res.vs = append(res.vs, mc.Violation{Prop: "C02", Clause: "fixture", Fingerprint: "fixture", Detail: err.Error()})
 			continue
 		}
-		repo := headers.NewRepository(headers.DefaultConfig(), vstore.New())
+		repo := headers.NewRepository(&headers.Config{Network: rn.net, MaxBranchDepth: 144}, vstore.New())
 		repo.DisableDifficulty()
 		work, _ := new(big.Int).SetString(fx.work, 16)
 		height := fx.height
 		for i, h := range hs {
+			if rn.net != bitcoin.MainNet && i > 150+window+1 {
+				break
+			}
 			if i == 150 {
 				repo.EnableDifficulty()
 			}
@@ -646,7 +663,7 @@ func chainPart(thorough bool) *result {
 			}
 			height++
 		}
-		res.samples = append(res.samples, map[string]any{"part": "real-chain", "fixture": fx.file, "headers": len(hs), "mutation_window": window})
+		res.samples = append(res.samples, map[string]any{"part": "real-chain", "fixture": fx.file, "headers": len(hs), "mutation_window": window, "configured_network": fmt.Sprint(rn.net)})
 	}
 	return res
 }
@@ -701,7 +718,7 @@ func main() {
 		Coverage: map[string]any{
 			"evaluations":         total.evaluations,
 			"distinct_nontrivial": total.nontrivial,
-			"rule":                "complete Cartesian spaces, every element run through the real code: (0) the target function on a branch with 0..149 of its 150 window headers pruned from memory (root and fork branch): the required answer or an error, never a nil target without error; (1) target function: 3^6 timestamp order/tie patterns of the six headers that matter x time-span classes {below 72 blocks, inside, above 288, zero, negative, at the clamps} x bits patterns x branch shapes (root / fork straddling either median window), compared with a reference implementation of the network's algorithm; non-trivial = a tie in a median window, a non-positive span or a fork branch; (2) bits: every exponent byte 0..255 x 11 mantissas x {hash above target, hash meeting the target where one can be found} through ProcessHeader and HandleHeadersMessage; non-trivial = negative / overflow / zero target or exponent outside 4..0x1d; (8) mined headers claiming the proof-of-work limit offered, with checking on, as the FIRST header of a new branch: off the fork (which requires half the limit: refused as invalid target, unknown afterwards) and off the main branch (which requires the limit: accepted); (9) self-consistent chains near the proof-of-work limit (window work about 2^39) with block spacings 300..900 s grown from 147 to 450 (thorough 900) headers, Branch.Target compared with the reference at every height; (3) both real mainnet fixture chains with difficulty checking on and 15 single-field mutations of every header in a window; every mutant is non-trivial. All cases distinct by construction",
+			"rule":                "complete Cartesian spaces, every element run through the real code: (0) the target function on a branch with 0..149 of its 150 window headers pruned from memory (root and fork branch): the required answer or an error, never a nil target without error; (1) target function: 3^6 timestamp order/tie patterns of the six headers that matter x time-span classes {below 72 blocks, inside, above 288, zero, negative, at the clamps} x bits patterns x branch shapes (root / fork straddling either median window), compared with a reference implementation of the network's algorithm; non-trivial = a tie in a median window, a non-positive span or a fork branch; (2) bits: every exponent byte 0..255 x 11 mantissas x {hash above target, hash meeting the target where one can be found} through ProcessHeader and HandleHeadersMessage; non-trivial = negative / overflow / zero target or exponent outside 4..0x1d; (8) mined headers claiming the proof-of-work limit offered, with checking on, as the FIRST header of a new branch: off the fork (which requires half the limit: refused as invalid target, unknown afterwards) and off the main branch (which requires the limit: accepted); (9) self-consistent chains near the proof-of-work limit (window work about 2^39) with block spacings 300..900 s grown from 147 to 450 (thorough 900) headers, Branch.Target compared with the reference at every height; (3) both real mainnet fixture chains with difficulty checking on and 15 single-field mutations of every header in a window (the second chain also on a repository configured for a network without chain split table); every mutant is non-trivial. All cases distinct by construction",
 			"exhaustive":          true,
 			"outcomes":            total.outcomes,
 			"parts":               per,
